@@ -18,39 +18,49 @@ _SCHED_NOTE = ('Choice points only where the event loop\'s ready queue is empty 
                'plyvel stand-in.')
 CHECKS = {
     'C11': ('exploration',
-            'exhaustive enumeration of proofs over chain histories + stateless schedule exploration of proofs in flight across a reorganisation',
+            'exhaustive enumeration of proofs over chain histories + stateless schedule exploration of proofs in flight across a reorganisation + proof requests served at every slice point of sliced worker jobs (incl. torn reads)',
             'A: four chain histories with blocks of 1..300 transactions (direct and cached merkle path), '
             'also after reorganisations replacing large blocks by other large blocks: every block x '
             'positions x six proof request kinds over the wire must fold to the header\'s merkle root, '
             'every (h <= cp <= tip) header proof to the reference root, everything outside the chain '
             'refused.  B: proof requests in flight while blocks are undone, every choice vector with '
             '<= 1/2 deviations: a reply is an error or verifies against a chain the daemon had; after '
-            'quiescence all proofs verify again.', _SCHED_NOTE, '3/C11'),
+            'quiescence all proofs verify again.  C: the mutating worker jobs of a reorganisation are '
+            'sliced at their storage / file operations and proof requests are served at every slice '
+            'point (also with the requests\' own reads torn by the mutation); same oracles.',
+            _SCHED_NOTE + ' Part C: preemption inside jobs only at storage / file operations.', '3/C11'),
     'C10': ('exploration',
-            'stateless schedule exploration with iterative deviation bounding of the full system, queries judged at quiescence',
+            'stateless schedule exploration with iterative deviation bounding of the full system + queries served at every slice point of sliced worker jobs, judged at quiescence',
             'The C07 scenario family with cache-populating queries before, during (also while blocks are '
             'undone) and after the events; every choice vector with <= 1 (quick) / 2 (thorough) '
             'deviations.  At quiescence get_history, get_mempool, get_balance, listunspent for every '
             'watched script and id_from_pos for the top heights, asked by the client that cached and by '
-            'a fresh one, must equal the answer implied by the final chain and mempool.',
-            _SCHED_NOTE, '3/C10'),
+            'a fresh one, must equal the answer implied by the final chain and mempool.  Part B: the '
+            'cache-populating queries served at every slice point of every advance_block / '
+            'backup_block / flush_dbs job of nine scenarios.',
+            _SCHED_NOTE + ' Part B: preemption inside jobs only at storage / file operations.', '3/C10'),
     'C07': ('exploration',
-            'stateless schedule exploration with iterative deviation bounding of the full system (block processor, mempool, notifications, sessions, clients)',
-            'Twelve scenarios (mempool entry then confirmation, quick blocks with churn, natural reorgs '
+            'stateless schedule exploration with iterative deviation bounding of the full system (block processor, mempool, notifications, sessions, clients) + subscriptions served at every slice point of sliced worker jobs',
+            'Seventeen scenarios (mempool entry then confirmation, quick blocks with churn, natural reorgs '
             'returning / reconfirming / dropping txs, forced reorgs, cache-pressure flush, subscribe / '
             'unsubscribe / query races, orphaned parent) with real client sessions over the wire and a '
             'scheduled daemon; every choice vector with <= 1 (quick) / 2 (thorough) deviations (event or '
             'timer overtaking, younger first, hold/release, stall/arrive).  At quiescence every held '
             'status and header is judged against the protocol definition; real Notifications call '
-            'sequences are checked against C20\'s environment automaton.', _SCHED_NOTE, '3/C07'),
+            'sequences are checked against C20\'s environment automaton.  Part B: subscriptions (also by '
+            'a client connecting at that moment) served at every slice point of every mutating worker '
+            'job of nine scenarios.',
+            _SCHED_NOTE + ' Part B: preemption inside jobs only at storage / file operations.', '3/C07'),
     'C09': ('exploration',
             'stateless schedule exploration with iterative deviation bounding (CHESS style) of the real mempool tracker in the full system',
             'Scenarios (synchronised mempool, new mempool, one daemon event: block with/without the index '
             'catching up or flushing, eviction, arrival, reorg) with a scheduled daemon; the event, timers, '
             'younger replies and hold/release of slow replies or jobs are placed at every quiescent point '
             'of the refresh with at most 1 (quick) / 2 (thorough) deviations; invariants on the tracker at '
-            'every point, task liveness, and the C08 oracle after the following quiet refreshes.',
-            _SCHED_NOTE, '3/C09'),
+            'every point, task liveness, the C08 oracle after the following quiet refreshes, and every '
+            'changed script reported touched in between.  Part B: a whole refresh served at every slice '
+            'point of the block processor\'s worker jobs.',
+            _SCHED_NOTE + ' Part B: preemption inside jobs only at storage / file operations.', '3/C09'),
     'C08': ('exploration',
             'exhaustive bounded enumeration of mempool state sequences on the real tracker in the full system',
             'A 7-transaction universe (child, grandchild, mixed inputs, generation-like input, several '
@@ -66,21 +76,23 @@ CHECKS = {
             '0, the 2016 cap and the chain end, checked against the reference headers and merkle '
             'proofs; get_history / subscribe cold and cached for histories of limit-1..limit+2 entries '
             'under six MAX_SEND settings and three request orders; a subscribed history outgrowing '
-            'the limit.  A reply is the complete history or the error, never a truncation.',
+            'the limit; history reads in flight across a block (made after it / made before and handed '
+            'over after it).  A reply is the complete history or the error, never a truncation.',
             'Exactly at the derived limit either outcome is accepted if consistent; fake plyvel stand-in.',
             '3/C17'),
     'C16': ('exploration',
             'exhaustive enumeration of method x argument tuples over a JSON alphabet, over the wire into real sessions',
-            'All 24 protocol methods x the full product of a 54-value index-aware JSON alphabet for '
+            'All 24 protocol methods x the full product of a 60-value index-aware JSON alphabet for '
             'arity 0..2, reduced alphabets for arity 3 and 4, too many arguments and by-name forms, '
             'as JSON bytes through RSTransport into a real ElectrumX session with a second subscribed '
             'client: never INTERNAL_ERROR, exactly one reply, refused requests leave subscriptions '
-            'untouched and caches only gain correct entries; differential run for the other client.',
+            'untouched and caches only gain correct entries; differential run for the other client; '
+            'also without a handshake, with protocol 1.4, and against a server with DROP_CLIENT set.',
             'aiorpcx JSON-RPC layer trusted; cost limits disabled so throttling does not interfere; '
             'cache checks read SessionManager cache attributes (named by the property).', '3/C16'),
     'C06': ('exploration',
             'stateless schedule exploration with sliced worker jobs: every cancellation instant x after-cancel interleavings up to a preemption bound',
-            'Six scenario shapes; the stop (shutdown_event + task cancellation) is placed at every '
+            'Ten scenario shapes (three with a daemon whose every answer is a scheduler step); the stop (shutdown_event + task cancellation) is placed at every '
             'scheduler step at storage/file-operation granularity, i.e. also in the middle of worker '
             'jobs, and every interleaving of loop callbacks and job slices afterwards is explored with '
             'at most 2 (quick) / 3 (thorough) non-default choices; the database left behind is reopened '
@@ -110,7 +122,9 @@ CHECKS = {
             'Product of per-slot peer states (shared /16 and /56 buckets, private addresses, resolved '
             'and unresolved host names, up to 60 onion peers, own identities) x requester kind, each '
             'under every shuffle outcome of small buckets, through the real on_peers_subscribe; '
-            'every host x port-pair of a JSON alphabet through Peer.peers_from_features.',
+            'every host x port-pair of a JSON alphabet through Peer.peers_from_features; every sequence '
+            'of peer-life events (re-verification through the real _verify_peer against a scripted '
+            'remote, clock, subscribe) up to depth 4 / 5.',
             'aiorpcx hostname validation trusted; independent hostname check deliberately lenient; '
             'fixed clock.', '3/C19'),
     'C18': ('exploration',
@@ -144,7 +158,8 @@ CHECKS = {
             'remove, DB batch, DB put), every torn prefix of the write in progress and every prefix '
             'of the recovery\'s own writes, fresh real objects open the image: the height must be a '
             'committed one not below the last completed flush, all observables must equal the '
-            'reference at that height, and the resumed sync must end like the uninterrupted run.',
+            'reference at that height, and the resumed sync must end like the uninterrupted run '
+            '(observables and the undo window); an exception in the middle of building a batch.',
             'Crash = process death (no power-loss model); LevelDB batches/puts atomic; first-time '
             'database creation excluded (not "during block processing or a flush").', '3/C04'),
     'C03': ('exploration',
@@ -154,13 +169,16 @@ CHECKS = {
             'flush schedules x reorg limits x event shapes (single, back-to-back, equal/shorter then '
             'extension, forced reorgs unchanged/extended/silently switched, fork discovered at every '
             'scheduler step of a batch); every observable incl. header proofs and the raw tables '
-            'compared with the reference indexer and with a fresh server that only saw the final chain.',
+            'compared with the reference indexer and with a fresh server that only saw the final chain; '
+            'the whole index is read before the reorganisation; server restarted before it; forks of '
+            'depth 6..7 on a longer chain.',
             _IDX_NOTE, '3/C03'),
     'C01': ('exploration',
             'exhaustive bounded enumeration of chains x flush schedules on the real sync pipeline',
             'Every recipe sequence up to the length bound x every per-block flush directive (none, '
             'history-only, full) x prefetch limits x reorg limits, plus fixed scenarios (prefix-'
-            'collision triple in every order, 262 flushes, a 253-tx block), each synced through the '
+            'collision triple in every order, 262 flushes, a 253-tx block, coinbases touching no '
+            'script, a 65,540-output transaction, tiny physical files), each synced through the '
             'real fetch_and_process_blocks under a hand-stepped loop; all UTXO observables compared '
             'with a reference indexer after every full flush and at catch-up.', _IDX_NOTE, '3/C01'),
     'C02': ('exploration',
@@ -174,17 +192,20 @@ CHECKS = {
             'level depth, against a textbook merkle tree; branch_length on every power-of-two '
             'boundary to 2^62; all initialise/extend/truncate/reorg sequences of the real '
             'MerkleCache explored as a state graph to a fixpoint or depth bound, every (length, '
-            'index) query compared with a from-scratch computation in every state.',
+            'index) query compared with a from-scratch computation in every state; every interleaving '
+            'of the source reads of concurrent lookups with a truncate or a source change.',
             'Trusted: SHA-256 collision freedom on the generated leaves; the hash source is '
-            'consistent between two calls (in-flight races belong to C11).', '3/C12'),
+            'consistent between two calls unless the scenario changes it.', '3/C12'),
     'C20': ('model_checking',
             'explicit-state BFS, real Notifications object composed with an environment automaton',
             'All call sequences the block processor / mempool tracker / start-up can produce '
-            '(heights 0..3 quick, 0..4 thorough) explored to a fixpoint; oracle 1 on every notify '
-            'call, no-loss oracle via a quiescence closing from every reachable state.',
+            '(heights 0..3 quick, 0..4 thorough) explored to a fixpoint in six phases (rising, falling '
+            'daemon, empty sets, slow notify callback = calls in flight); oracle 1 on every notify '
+            'call, no-loss oracle via quiescence closings from every reachable state, refresh at the '
+            'reported height notified at once.',
             'Environment automaton is an abstraction of block processor and mempool tracker; it is '
             'bound to the code by C07 which checks real full-system call sequences against it. '
-            'Daemon height assumed non-decreasing.', '3/C20'),
+            'Daemon height non-decreasing except in the falling phases.', '3/C20'),
 }
 
 NOT_YET = {
